@@ -2,7 +2,7 @@ SPECIFICATION SpecSim
 CONSTANTS
   N = 4
   Kinds = {"text", "raw", "command", "cfile", "ccmd", "datasource"}
-  Atoms = {"p", "b", "n", "L"}
+  Atoms = {"p", "b", "n", "L", "f", "g"}
   MinLines = 0
   MaxLines = 4
   MaxElems = 3
